@@ -1,5 +1,6 @@
 import DateutilVerif.Properties.C18
 #print axioms C18.unique_live_partial
+#print axioms C18.unique_live_lru
 #print axioms C18.identity_while_referenced
 #print axioms C18.no_half_built
 #print axioms C18.fresh_constructors
@@ -8,7 +9,8 @@ import DateutilVerif.Properties.C18
 #print axioms C18.strong_within_capacity
 #print axioms C18.lock_discipline
 #print axioms C18.no_deadlock
-#print axioms C18.always_returns_partial
+#print axioms C18.always_returns
+#print axioms C18.variant_decreases
 #print axioms C18.singleton_unique_partial
 #print axioms C18.eq_refl
 #print axioms C18.eq_symm
